@@ -294,6 +294,8 @@ def gen_shards(tier, seed):
     shards.append(('Q', LQ))
     shards.append(('X9', 3))
     shards.append(('T', 3 if tier == 'quick' else 4))
+    for size in XL_SIZES[:4 if tier == 'quick' else len(XL_SIZES)]:
+        shards.append(('XL', size))
     for n in range(0, LX + 1):
         if n <= 3:
             shards.append(('XP', n, ()))
@@ -304,6 +306,21 @@ def gen_shards(tier, seed):
         for pre in itertools.product(range(16), repeat=n - SHARD_SUFFIX):
             shards.append(('S', n, pre))
     return shards, {'L': L, 'LX': LX, 'LQ': LQ}
+
+
+# part XL: LONG inputs (a decoder may treat them differently: chunking, halving, a different joiner).  Every
+# token, repeated up to each size, behind every pad of 0..5 literal characters (so a cut at ANY offset modulo
+# the token length is exercised), alone and alternating with a one-character literal.
+XL_SIZES = (300, 1100, 2100, 4200, 8300, 16500, 33000, 66000)
+
+
+def xl_strings(size):
+    for tok in TOKENS:
+        for pad in range(6):
+            k = max(1, (size - pad) // len(tok))
+            yield 'a' * pad + tok * k
+            yield 'a' * pad + (tok + 'b') * max(1, (size - pad) // (len(tok) + 1))
+            yield 'a' * pad + tok * (k + 1) + '+%'
 
 
 def strings(syms, n, pre):
@@ -338,6 +355,10 @@ def run_shard(shard, rep):
                 check_string(s + P, rep, 'XP')
                 check_string(M + s, rep, 'XP')        # seven malformed escapes, then s
                 check_string(P[:9] + s + P[9:], rep, 'XP')
+    elif kind == 'XL':
+        for s in xl_strings(shard[1]):
+            check_string(s, rep, 'XL', False)
+        rep.sample({'part': 'XL', 'size': shard[1], 'strings': len(TOKENS) * 18})
     elif kind == 'T':
         for n in range(1, shard[1] + 1):
             for tup in itertools.product(TOKENS, repeat=n):
@@ -371,6 +392,7 @@ def check(rep):
         'S_max_len': b['L'], 'S_strings': sum(16 ** n for n in range(b['L'] + 1)),
         'X9': 's*9 for all s with len<=3', 'XP_max_len': b['LX'],
         'XP': 'P+s, s+P, 7 malformed+s, P split around s; P = 7 well-formed escapes',
+        'XL': 'every token repeated to sizes %s, pads 0..5, three shapes' % (list(XL_SIZES[:4 if rep.tier == 'quick' else len(XL_SIZES)]),),
         'T_tokens': list(TOKENS), 'T_max_tokens': 3 if rep.tier == 'quick' else 4,
         'H': 'reg-names <=3 over {a,1,.,-,~,%4A,!} + named hosts + IPv4 + 10 IP-literals, x 9 port forms x 4 default_port forms',
         'Q_max_len': b['LQ'], 'Q_alphabet': ['"', '\\', 'a', ' '],
